@@ -12,14 +12,16 @@ THOROUGH_S = 600
 TECHNIQUE = ('runtime monitoring: one error of a known kind injected at an offset known from the harness layout; filename / '
              'line / col of the raised error compared with the ground truth computed by counting newlines in that file')
 RULE = ('random import graphs (1-5 files, generator of C17) and single-file string models; one injected error per load: '
-        'syntax error (illegal token), unknown name, non-unique name, unresolvable postponed reference; located in the main '
+        'syntax error (illegal token), unknown name, non-unique name, unresolvable postponed reference (the offending name as a single reference or as the k-th element, k = 0..3, of a '
+        'comma separated reference list laid out over one or several lines); located in the main '
         'file, a direct import or a transitive import; preceded by random blank lines, indentation, comments and CR/LF-free '
         'or LF layouts; providers PlainNameImportURI / FQNImportURI (+ a postponing wrapper). Oracle: error.filename is the '
         'absolute path of the file containing the offending text (None for strings), (line, col) is the 1-based position of '
         'that text in that file. distinct = (graph shape, kind, location class, layout); non-trivial = error in an imported '
         'file or preceded by a multi-line layout')
 REQUIRED = {'errors_checked': 500, 'kind_syntax': 50, 'kind_unknown': 50, 'kind_not_unique': 50, 'kind_postponed': 50,
-            'in_main_file': 100, 'in_imported_file': 100, 'string_loads': 50}
+            'in_main_file': 100, 'in_imported_file': 100, 'string_loads': 50,
+            'in_reference_list': 100, 'in_reference_list_not_first': 50}
 KINDS = ['syntax', 'unknown', 'not_unique', 'postponed']
 
 
@@ -55,6 +57,24 @@ def one(ctx, i, rep=None):
             stmt, rel = 'def dup def dup\nref zz ->   dup', len('def dup def dup\nref zz ->   ')
         else:
             stmt, rel = 'ref zz -> never', len('ref zz -> ')
+        if kind != 'syntax' and r.random() < 0.5:
+            # the offending name as the k-th element of a reference list (one assignment, separator ',')
+            bad = {'unknown': 'nowhere', 'not_unique': 'dup', 'postponed': 'never'}[kind]
+            k = r.randint(0, 3)
+            elems = ['lg%d' % q for q in range(r.randint(k, k + 2))]
+            elems.insert(k, bad)
+            head = 'def lg0 def lg1 def lg2 def lg3 def lg4 def lg5' + (' def dup def dup' if kind == 'not_unique' else '') + '\nref zz -> lg0 also '
+            stmt = head
+            rel = None
+            for q, e in enumerate(elems):
+                if q:
+                    stmt += r.choice([',', ' , ', ',\n   ', '\n,\t', ', // c\n '])
+                if q == k:
+                    rel = len(stmt)
+                stmt += e
+            ctx.count('in_reference_list')
+            if k:
+                ctx.count('in_reference_list_not_first')
         offset = len(base) + rel
         newtext = base + stmt + r.choice(['', '\n', ' \n\n'])
         texts = dict(texts)
@@ -110,7 +130,7 @@ def classify(kind, where, got, exp_file, el, ec):
 
 
 def run(ctx):
-    for i in ctx.indices(1200 if ctx.tier == 'quick' else 30000, 'random'):
+    for i in ctx.indices(6000 if ctx.tier == 'quick' else 30000, 'random'):
         one(ctx, i)
 
 
